@@ -202,6 +202,8 @@ void checkCallLog(Ctx& ctx, size_t firstCall, int flags) {
         const long lvl = c.trueLevel >= 0 ? c.trueLevel : -1;
         if ((c.op == OP_M2M || c.op == OP_M2L || c.op == OP_L2L) && lvl >= 0 && lvl < ctx.upper)
             ctx.addViolation("calllog", std::string(opName(c.op)) + ".above-upper", std::string(opName(c.op)) + " applied at level " + std::to_string(lvl) + " above the upper working level " + std::to_string(ctx.upper));
+        if ((c.op == OP_P2M || c.op == OP_L2P) && ctx.height - 1 < ctx.upper)   // the leaf level itself lies above the upper working level
+            ctx.addViolation("calllog", std::string(opName(c.op)) + ".above-upper", std::string(opName(c.op)) + " applied at the leaf level " + std::to_string(ctx.height - 1) + " above the upper working level " + std::to_string(ctx.upper));
         if (ctx.tsm && c.op == OP_P2PINNER) ctx.addViolation("calllog", "P2PInner.tsm", "P2PInner invoked in target/source mode");
     }
 }
